@@ -3,6 +3,7 @@ package sim
 import (
 	"fmt"
 	"hash/fnv"
+	"math"
 	"math/rand"
 	"os"
 	"path/filepath"
@@ -53,6 +54,9 @@ type Op struct {
 	BlockedStep int64
 	protoAt     int  // (C15) protocol the connection spoke when the reply was read
 	AfterClose  bool // (C20) sent after the connection's emulator had returned from Close
+	// endOff: offset in the connection's current send buffer at which this request ends
+	// (0 = the request went out with an earlier buffer and is delivered completely)
+	endOff int
 }
 
 type Violation struct {
@@ -90,6 +94,10 @@ type simClient struct {
 	cuts      []int
 	loops     int
 	sent      int
+	// hold: the rest of the send buffer stays with the client until every completely
+	// delivered command has been answered (a client that sent one command and the
+	// start of the next in one segment, then waits for the first reply)
+	hold      bool
 	sendOp    *Op
 	pending   []*Op
 	recv      []byte
@@ -154,6 +162,12 @@ type World struct {
 	stats      Stats
 	fp         uint64
 	lastRan    string
+	stalled    map[string]int64 // task name -> step at which the stall ends
+	lastParks  map[string]int   // task name -> park count when last seen (arrival detection)
+	siteVisits map[string]int   // hook site -> arrivals in this run
+	pctPrio    map[string]int   // PCT: priority per actor
+	pctChange  []int64          // PCT: remaining priority change points (steps, ascending)
+	pctLow     int              // PCT: next priority handed to a yielding actor (descending, negative)
 	nconn      int
 	admins     []*adminWorker
 	idleAdv    time.Duration
@@ -301,6 +315,12 @@ func (w *World) fillResult() {
 	res.History = w.history
 	res.Log = w.log
 	w.stats.SchedFp = w.fp
+	if w.sched != nil && w.sched.adopted > 0 {
+		if w.stats.Faults == nil {
+			w.stats.Faults = map[string]int{}
+		}
+		w.stats.Faults["unannounced-goroutine-scheduled"] += w.sched.adopted
+	}
 	res.Stats = w.stats
 	if er, ok := w.chk.(extraReporter); ok && w.chk != nil {
 		res.Extra = er.Extra()
@@ -334,6 +354,9 @@ func (w *World) run(mk func(*Plan) Checker) {
 	w.lane = newQuietLane()
 	rand.Seed(w.plan.Knobs.RandSeed)
 	s := w.sched
+	if os.Getenv("VS_NOADOPT") == "" {
+		s.worldGid = curGid()
+	}
 	redisemu.SimInstall(&redisemu.SimHooks{
 		Yield:       func(site string) { plantedAccess(); s.park(nil, site) },
 		BeforeLock:  func(mu *sync.Mutex, site string) { s.park(mu, site) },
@@ -608,13 +631,68 @@ func (w *World) loop() {
 			tasks = append(tasks, w.cands[i])
 		}
 		sort.Slice(tasks, func(i, j int) bool { return candLess(&tasks[i], &tasks[j]) })
+		if k := w.plan.Knobs.Stall; k > 0 && len(tasks) > 0 {
+			// one task at a time is set aside. Two sources: a 1-in-k draw per step
+			// over the runnable tasks, and - because the interleavings nobody has
+			// looked at lie where the code rarely goes - a 1-in-3 draw whenever a
+			// task arrives at a site that has been visited at most twice in this run
+			if w.stalled == nil {
+				w.stalled = map[string]int64{}
+				w.lastParks = map[string]int{}
+				w.siteVisits = map[string]int{}
+			}
+			victim, dur := "", 0
+			for i := range tasks {
+				c := &tasks[i]
+				name := candName(c)
+				if w.lastParks[name] == c.parks {
+					continue
+				}
+				w.lastParks[name] = c.parks
+				w.siteVisits[c.site]++
+				if w.siteVisits[c.site] <= 2 && len(w.stalled) == 0 && victim == "" && w.tape.Next(3) == 0 {
+					victim, dur = name, 50+w.tape.Next(300)
+					w.fault("task-stalled-at-rare-site")
+				}
+			}
+			if victim == "" && len(w.stalled) == 0 && w.tape.Next(k) == 0 {
+				victim, dur = candName(&tasks[w.tape.Next(len(tasks))]), 10+w.tape.Next(200)
+				w.fault("task-stalled")
+			}
+			if victim != "" {
+				w.stalled[victim] = w.step + int64(dur)
+				w.logf("S %s stalled until step %d", victim, w.stalled[victim])
+			}
+		}
+		for i := range tasks {
+			if tasks[i].spins > 5 && len(w.stalled) > 0 {
+				// somebody spins on a capture word: what it waits for may be the
+				// stalled task, and a spin loop is not a state to hold anybody in
+				clear(w.stalled)
+			}
+		}
+		var held []cand
 		for _, c := range tasks {
+			if until, ok := w.stalled[candName(&c)]; ok {
+				if w.step < until {
+					held = append(held, c)
+					continue
+				}
+				delete(w.stalled, candName(&c))
+			}
 			evs = append(evs, event{kind: evTask, c: c})
 		}
-		ntask := len(evs)
+		ntask := len(evs) + len(held)
 		for _, c := range w.clients {
 			if w.clientEnabled(c, ntask) {
 				evs = append(evs, event{kind: evClient, cli: c})
+			}
+		}
+		if len(evs) == 0 && len(held) > 0 {
+			// nothing else can move: the stalled tasks come back
+			for _, c := range held {
+				delete(w.stalled, candName(&c))
+				evs = append(evs, event{kind: evTask, c: c})
 			}
 		}
 		if len(evs) == 0 {
@@ -644,8 +722,10 @@ func (w *World) loop() {
 			evs = append(evs, event{kind: evAdvance})
 		}
 		var e event
-		// sticky bias: continue the task that ran last
-		if st := w.plan.Knobs.Sticky; st > 0 && w.lastRan != "" && w.tape.Next(100) < st {
+		if d := w.plan.Knobs.PCT; d > 0 {
+			e = w.pctPick(evs, d)
+		} else if st := w.plan.Knobs.Sticky; st > 0 && w.lastRan != "" && w.tape.Next(100) < st {
+			// sticky bias: continue the task that ran last
 			found := false
 			for _, x := range evs {
 				if x.kind == evTask && candName(&x.c) == w.lastRan {
@@ -744,6 +824,64 @@ func (w *World) allDone() bool {
 	return true
 }
 
+// pctPick: the enabled event of the actor with the highest priority (see Knobs.PCT).
+func (w *World) pctPick(evs []event, d int) event {
+	if w.pctPrio == nil {
+		w.pctPrio = map[string]int{}
+		items := 0
+		for _, c := range w.plan.Clients {
+			items += len(c.Items)
+		}
+		horizon := max(200, 30*items)
+		for i := 0; i < d-1; i++ {
+			w.pctChange = append(w.pctChange, w.step+1+int64(w.tape.Next(horizon)))
+		}
+		sort.Slice(w.pctChange, func(i, j int) bool { return w.pctChange[i] < w.pctChange[j] })
+	}
+	key := func(x *event) string {
+		switch x.kind {
+		case evTask:
+			n := candName(&x.c)
+			if i := strings.IndexByte(n, '.'); i > 0 {
+				return n[:i]
+			}
+			return n
+		case evClient:
+			return "cli" + strconv.Itoa(x.cli.idx)
+		}
+		return "clock"
+	}
+	pick := func() int {
+		best, bestP := 0, math.MinInt
+		for i := range evs {
+			k := key(&evs[i])
+			p, ok := w.pctPrio[k]
+			if !ok {
+				p = d + w.tape.Next(1000)
+				w.pctPrio[k] = p
+			}
+			if p > bestP {
+				best, bestP = i, p
+			}
+		}
+		return best
+	}
+	best := pick()
+	for len(w.pctChange) > 0 && w.step >= w.pctChange[0] {
+		// a change point: whoever would run now drops below everybody
+		w.pctPrio[key(&evs[best])] = len(w.pctChange)
+		w.pctChange = w.pctChange[1:]
+		w.fault("pct-priority-change")
+		best = pick()
+	}
+	if x := &evs[best]; x.kind == evTask && (x.c.site == "cs.spin" || x.c.spins > 0) || x.kind == evAdvance {
+		// a spinning task waits for somebody else: it yields (lowest priority from now on)
+		w.pctLow--
+		w.pctPrio[key(x)] = w.pctLow
+	}
+	return evs[best]
+}
+
 func (w *World) globalInflight() int {
 	n := 0
 	for _, c := range w.clients {
@@ -766,6 +904,14 @@ func (w *World) clientEnabled(c *simClient, ntask int) bool {
 		return false
 	}
 	if len(c.sendbuf) > 0 {
+		if c.hold {
+			for _, o := range c.pending {
+				if o.endOff <= c.sent {
+					return false
+				}
+			}
+			c.hold = false
+		}
 		return c.conn != nil && !c.cliClosed
 	}
 	if c.pos >= len(c.plan.Items) {
@@ -920,6 +1066,7 @@ func (w *World) clientStep(c *simClient) {
 			} else {
 				c.sendbuf = append(c.sendbuf, EncodeCmd(it.Args)...)
 			}
+			op.endOff = c.sent + len(c.sendbuf)
 			c.pending = append(c.pending, op)
 			c.pos++
 			w.fault("coalesced-commands")
@@ -1036,6 +1183,11 @@ func (w *World) clientStep(c *simClient) {
 		c.sendbuf = data
 		c.cuts = nil
 		c.sent = 0
+		c.hold = false
+		for _, o := range c.pending {
+			o.endOff = 0
+		}
+		op.endOff = len(data)
 		if len(it.Cuts) > 0 {
 			c.cuts = append([]int(nil), it.Cuts...)
 		}
@@ -1204,6 +1356,20 @@ func (w *World) deliver(c *simClient) {
 	}
 	w.logf("C c%d deliver %dB cap=%d", c.idx, n, readCap)
 	c.conn.cliDeliver(frag, readCap)
+	if w.plan.Knobs.Frag && len(c.sendbuf) > 0 && len(c.cuts) == 0 {
+		for _, o := range c.pending {
+			if o.endOff <= c.sent {
+				// a complete command (and perhaps the start of the next) is with the
+				// server: the client may wait for its reply before it sends the rest
+				if w.tape.Next(3) == 0 {
+					c.hold = true
+					w.fault("held-until-reply")
+					w.logf("C c%d hold", c.idx)
+				}
+				break
+			}
+		}
+	}
 }
 
 func (w *World) adminOp(c *simClient, it *Item) {
